@@ -126,6 +126,7 @@ LEAN_FILES = {
     "Graph.lean": ("L-RANK,L-REACH,L-TRANS", ["C01", "C04", "C07"]),
     "Graph2.lean": ("L-CYCLE,L-BYPASS", ["C01", "C07", "C09"]),
     "Count.lean": ("L-COUNT", ["C02"]),
+    "Induction.lean": ("L-IND(rank-induction),L-INV(invariant-rule)", ["C03", "C05", "C08"]),
 }
 
 
